@@ -25,8 +25,7 @@ func init() {
 	})
 }
 
-func runC10(c *CaseCtx) CaseResult {
-	var res CaseResult
+func runC10(c *CaseCtx) (res CaseResult) {
 	r := caseRand(c.Seed, "C10", c.Idx)
 	var s Scenario
 	fam := ""
